@@ -66,7 +66,9 @@ impl<T> EventSource for Park<'_, T> {
         // re-check the state, only clear once after resume
         #[cfg(may_verif)]
         crate::verif::pt("spscsub.recheck", crate::verif::addr(self.queue), vid, 0);
-        if !self.queue.queue.is_empty() {
+        // also re-check the disconnect: the last sender may have gone between our failed
+        // try_recv and this registration, and it found nobody to wake
+        if !self.queue.queue.is_empty() || self.queue.channels.load(Ordering::Relaxed) == 0 {
             #[cfg(may_verif)]
             crate::verif::pt("spscsub.take", crate::verif::addr(self.queue), vid, 0);
             if let Some(co) = wait_co.take() {
